@@ -127,7 +127,8 @@ func (w *World) ctxFor(c *Case, rt *Route) *Ctx {
 		cx.T, cx.Opp, cx.TNew = w.Own, w.Other, w.OwnNew
 	}
 	cx.Key = w.KX
-	if c.Name == "reserved" {
+	if c.Name == "reserved" || c.Name == "reservedenc" {
+		cx.KeyEnc = c.Name == "reservedenc"
 		switch rt.Method {
 		case "GET":
 			cx.Key = "_sys_auth::ecdsa_private_key"
@@ -253,7 +254,7 @@ func runCases(p Profile, cases []Case) *CaseResult {
 		res.Cases++
 		for _, v := range variantsOf(c, p) {
 			k := v.key()
-			if v.Name == "reserved" {
+			if v.Name == "reserved" || v.Name == "reservedenc" {
 				k = Variant{"benign", ""}.key() // same names, only the kv key differs
 			}
 			if _, ok := groups[k]; !ok {
@@ -268,7 +269,7 @@ func runCases(p Profile, cases []Case) *CaseResult {
 	for _, k := range order {
 		jobs := groups[k]
 		wv := jobs[0].v
-		if wv.Name == "reserved" {
+		if wv.Name == "reserved" || wv.Name == "reservedenc" {
 			wv = Variant{"benign", ""}
 		}
 		w, err := newWorld(node, wv)
